@@ -293,6 +293,11 @@ def check_mode(r, mode, exe):
             r.hist["fv-result"][res.split(":")[0] if ":" in res else res] += 1
             if res == "panic":
                 r.oracle_failure(case, f"[{feats}] {f[1]} panics", f"panic:fv:{f[1]}")
+            if " MISMATCH " in res:
+                what = f[2] if f[1] in ("sel", "cin") else ""
+                r.oracle_failure(case, f"[{feats}] {f[1]} {what}: the engine answers {res.replace(' MISMATCH ', ' but Value::cmp / == directly give ')}",
+                                 f"filter:{f[1]}:{what}")
+                res = res.split(" MISMATCH ")[0]
             m = model_of.get(case)
             if m is not None and m != res:
                 r.model_disagreement(case, res, m)
